@@ -3,7 +3,7 @@
 verbatim, proof = exact <lemma>).  Run by hand after editing DenseProofs.v; the output is committed."""
 import re, os, sys
 HERE = os.path.dirname(os.path.dirname(os.path.abspath(__file__)))
-src = open(os.path.join(HERE, "coq/Maths/DenseProofs.v")).read() + "\n" + open(os.path.join(HERE, "coq/Maths/Alias.v")).read() + "\n" + open(os.path.join(HERE, "coq/Maths/BlasTie.v")).read()
+src = open(os.path.join(HERE, "coq/Maths/DenseProofs.v")).read() + "\n" + open(os.path.join(HERE, "coq/Maths/Alias.v")).read() + "\n" + open(os.path.join(HERE, "coq/Maths/BlasTie.v")).read() + "\n" + open(os.path.join(HERE, "coq/Maths/ReturnsProofs.v")).read()
 WANT = [  # (lemma, one-line meaning)
  ("m_mult_spec", "A*B: DGEMM(N,N,M,L,N,A,M,B,N,C,M) = sum_k a_ik b_kj for all shapes; non-conformable => throws"),
  ("m_tmult_spec", "A'*B"), ("m_multt_spec", "A*B'"), ("m_tmultt_spec", "A'*B' (as repaired)"),
@@ -34,6 +34,10 @@ WANT = [  # (lemma, one-line meaning)
  ("tmult_is_source_call", ""), ("multt_is_source_call", ""), ("tmultt_is_source_call", ""),
  ("mulv_is_source_call", "DGEMV call and zero-initialised result as in matrix.h"), ("tmulv_is_source_call", ""),
  ("mult_sym_is_source_call", "DSYMM(Right,Upper) on the dense copy of the argument"), ("sym_mult_is_source_call", ""), ("sym_mult_sym_is_source_call", ""),
+ ("value_methods_return_fresh", "every `return` of every value-returning method (origins translated from the source) is a sized-constructor / DEEP_COPY local or an expression of such methods"),
+ ("in_place_solver_is_the_only_exception", "SymMatrix::solveLin(Matrix&) returns its non-const argument (documented in-place solve)"),
+ ("many_methods_covered", ""),
+ ("fresh_result_independent", "such a result has a buffer distinct from every operand: writes to either side do not show on the other"),
  ("deep_copy_independent", "a DEEP_COPY shares nothing with its source: writing either leaves the other unchanged"),
  ("shallow_copy_aliases", "a plain copy shares the buffer (documented behaviour)"),
  ("tmultt_pinned_refuted", "the pinned tmultt call violates the definition (3x2 with 4x3: out-of-bounds read)"),
@@ -59,7 +63,7 @@ out = ["(* C13 -- dense linear algebra (Vector / Matrix / SymMatrix) agrees with
        "   [exact <lemma>] and followed by Print Assumptions.  The model (coq/Maths/DenseModel.v) calls the BLAS reference",
        "   semantics with the flags / dimensions / leading dimensions of the source and reads buffers with checked",
        "   reads: [Ok v] normal return, [Throw] om_assert, [Undef] out-of-bounds access or unwritten result. *)",
-       "From OM Require Import Base.Lists Maths.Dense Maths.DenseModel Maths.DenseProofs Maths.Alias Gen.GenBlasCalls Maths.BlasTie.",
+       "From OM Require Import Base.Lists Maths.Dense Maths.DenseModel Maths.DenseProofs Maths.Alias Gen.GenBlasCalls Maths.BlasTie Gen.GenReturns Maths.ReturnsProofs.",
        "Local Open Scope nat_scope.", ""]
 for name, what in WANT:
     b, s = stmt(name)
